@@ -4,9 +4,11 @@ C12 — sender side of acknowledged requests, client role.
 Property theorems only (helper lemmas: `Proofs/Client*.lean`).  Model:
 `Model/Client.lean` (code-shaped, tied to `service.Client` by the scripted-peer
 correspondence runs); specification: `Spec/Client.lean`.  The recorded
-deviations of the code (E5 ack-before-registration, the single ping slot, E9,
-the A2 identifier wrap) are kept out of the `…_partial` statements by explicit
-hypotheses and proved as closed `…_counterexample`s on the model.
+deviations of the code (E5 ack-before-registration, E9, the A2 identifier
+wrap) are kept out of the `…_partial` statements by explicit hypotheses and
+proved as closed `…_counterexample`s on the model.  (The single ping slot of
+`sessions.Ackqueue` was one of them; it was repaired - the pings are a FIFO -
+and the ping theorems below are stated at full strength.)
 -/
 import Mqtt.Proofs.ClientRefine
 
@@ -195,36 +197,72 @@ example :
     (queue .pub1 (runState init demoC)).map (fun r => (r.id, r.tag, r.state)) = [(3, 0, 0), (1, 17, 0)] := by
   decide
 
-/-! ### the ping slot -/
+/-! ### pings (no identifier: any number may be outstanding) -/
 
-/-- **Pings, the part that holds**: in a history without early acknowledgements
-in which `Ping` is called only when no earlier ping is outstanding (`PingOk`),
-the ping completions fired, followed by the tag in the slot, are the tag
-initially in the slot followed by the tags of the `Ping` calls, in order. -/
-theorem C12_ping_exactly_once_partial (c : C) (evs : List Ev) (hc : c.connected = true)
-    (he : noEarly evs = true) (hp : PingOk c evs = true) :
-    pingFired c evs ++ nz (slotTags (runState c evs)) = nz (slotTags c) ++ nz (pingRequested evs) :=
-  run_ping_conservation c evs hc he hp
+/-- **Pings, exactly-once FIFO completion.**  For every state of a connected
+client - whatever number of pings is outstanding - and every history without
+the ack-before-registration interleaving, in which `Ping` may be called any
+number of times before any PINGRESP arrives: the ping completions fired,
+followed by the tags of the pings still in flight, are the tags initially in
+flight followed by the tags of the `Ping` calls, in call order.  Hence every
+ping completion fires at most once, in the order of the calls, none is lost to
+a later `Ping`, and none fires that was not requested. -/
+theorem C12_ping_exactly_once_fifo (c : C) (evs : List Ev) (hc : c.connected = true)
+    (he : noEarly evs = true) :
+    pingFired c evs ++ nz (pingTags (runState c evs)) = nz (pingTags c) ++ nz (pingRequested evs) :=
+  run_ping_conservation c evs hc he
 
-/-- the statement without the restriction -/
-def C12_ping_exactly_once_full : Prop :=
-  ∀ (c : C) (evs : List Ev), c.connected = true → noEarly evs = true →
-    pingFired c evs ++ nz (slotTags (runState c evs)) = nz (slotTags c) ++ nz (pingRequested evs)
+/-- **When a ping completion fires.**  Between two events no ping in flight
+carries a PINGRESP (`PingsWaiting`: the client collects right after it
+acknowledges) - in every state reached from a fresh client by any history, and
+inductively from every state that has the invariant.  In such a state a
+PINGRESP fires exactly the completion of the *oldest* ping in flight (none if
+no ping is outstanding: the PINGRESP is ignored) and leaves the younger pings
+in flight, in order: the n-th PINGRESP completes the n-th `Ping`, never early
+and no later than permitted. -/
+theorem C12_ping_completion_timing :
+    (∀ evs, PingsWaiting (runState init evs)) ∧
+    (∀ c ev, PingsWaiting c → PingsWaiting (step c ev).1) ∧
+    (∀ c, c.connected = true → PingsWaiting c →
+      doneTags (step c (.peer .pingresp)).2 = nz ((pingTags c).take 1) ∧
+      pingTags (step c (.peer .pingresp)).1 = (pingTags c).tail) :=
+  ⟨fun evs => pingsWaiting_run init evs pingsWaiting_init, pingsWaiting_step,
+   fun c hc h => pingresp_completes_oldest c hc h⟩
 
-/-- It is false of the code as it is (the single ping slot): a second `Ping`
-before the first PINGRESP overwrites the slot; of the two PINGRESPs that follow
-the first completes the *second* call and the second completes nothing - the
-completion of the first call is lost. -/
-theorem C12_ping_slot_counterexample : ¬ C12_ping_exactly_once_full ∧
+/-- Two pings, two PINGRESPs: both completions, in the order of the calls - from
+every connected state without a ping in flight, for all callbacks.  (Before the
+repair of the single ping slot the first PINGRESP completed the *second* call
+and the completion of the first call was lost.) -/
+theorem C12_two_pings_both_complete (c : C) (hc : c.connected = true) (hq : c.pings = []) (t1 t2 : Nat) :
+    runOuts c [.api (.ping t1), .api (.ping t2), .peer .pingresp, .peer .pingresp] =
+      [[.wrote .pingreq], [.wrote .pingreq], completeOut t1 false, completeOut t2 false] ∧
+    (runState c [.api (.ping t1), .api (.ping t2), .peer .pingresp, .peer .pingresp]).pings = [] := by
+  have h1 : step c (.api (.ping t1)) = ({ c with pings := [(0, t1)] }, [.wrote .pingreq]) := by
+    simp [step, hc, apiWrite, apiRegister, hq]
+  have h2 : step { c with pings := [(0, t1)] } (.api (.ping t2)) =
+      ({ c with pings := [(0, t1), (0, t2)] }, [.wrote .pingreq]) := by
+    simp [step, hc, apiWrite, apiRegister]
+  have h3 : step { c with pings := [(0, t1), (0, t2)] } (.peer .pingresp) =
+      ({ c with pings := [(0, t2)] }, completeOut t1 false) := by
+    simp [step, hc, peer, pingAck, pingAcked, Mqtt.Generated.tPINGRESP]
+  have h4 : step { c with pings := [(0, t2)] } (.peer .pingresp) =
+      ({ c with pings := [] }, completeOut t2 false) := by
+    simp [step, hc, peer, pingAck, pingAcked, Mqtt.Generated.tPINGRESP]
+  simp only [runOuts, runState, List.foldl_cons, List.foldl_nil, h1, h2, h3, h4, and_self]
+
+example :
     runOuts demoA [.api (.ping 1), .api (.ping 2), .peer .pingresp, .peer .pingresp] =
-      [[.wrote .pingreq], [.wrote .pingreq], [.complete 2 false], []] := by
-  refine ⟨fun h => ?_, by decide⟩
-  have := h demoA [.api (.ping 1), .api (.ping 2), .peer .pingresp, .peer .pingresp] (by decide) (by decide)
-  exact absurd this (by decide)
+      [[.wrote .pingreq], [.wrote .pingreq], [.complete 1 false], [.complete 2 false]] := by
+  decide
 
-example : PingOk demoA [.api (.ping 1), .peer .pingresp, .api (.ping 2), .peer .pingreq, .peer .pingresp] = true ∧
-    runOuts demoA [.api (.ping 1), .peer .pingresp, .api (.ping 2), .peer .pingreq, .peer .pingresp] =
-      [[.wrote .pingreq], [.complete 1 false], [.wrote .pingreq], [.wrote .pingresp], [.complete 2 false]] := by
+/-- three pings outstanding, PINGRESPs interleaved with other traffic, a PINGRESP with nothing outstanding -/
+example :
+    runOuts demoA [.api (.ping 1), .api (.ping 2), .peer (.puback 9), .peer .pingresp, .api (.ping 0), .api (.ping 4),
+        .peer .pingreq, .peer .pingresp, .peer .pingresp, .peer .pingresp, .peer .pingresp] =
+      [[.wrote .pingreq], [.wrote .pingreq], [.complete 3 false], [.complete 1 false], [.wrote .pingreq],
+       [.wrote .pingreq], [.wrote .pingresp], [.complete 2 false], [], [.complete 4 false], []] ∧
+    pingFired demoA [.api (.ping 1), .api (.ping 2), .peer (.puback 9), .peer .pingresp, .api (.ping 0), .api (.ping 4),
+        .peer .pingreq, .peer .pingresp, .peer .pingresp, .peer .pingresp, .peer .pingresp] = [1, 2, 4] := by
   decide
 
 /-! ### the two interleavings of acknowledgement and return of the call -/
@@ -367,7 +405,6 @@ except that a delivered message fixes callback, topic and payload only, and
 history iff every event is inside the recorded exclusions:
 
 * no `.apiEarlyAck` (E5);
-* `Ping` only while no ping is outstanding (the single ping slot);
 * at every dispatch no callback is held under two different filters that both
   match the delivered topic (`E9free`, E9);
 * filters and delivered topic names without empty levels and not beginning
@@ -397,7 +434,7 @@ def C12_refines_spec_full : Prop := ∀ evs : List Ev, RunMatch (specOuts {} evs
 
 /-- non-vacuity: an admitted history exercising every kind of event - out-of-order PUBACKs, a QoS 2
 publish with PUBREC/PUBCOMP, subscribe with a refused filter, inbound QoS 0/1/2 with a duplicate,
-unsubscribe, ping -/
+unsubscribe, ping (several outstanding pings: `demoP` below) -/
 def demoD : List Ev :=
   [.connect (.connack true 0),
    .api (.publish { qos := 1, topic := [97], pktid := 1, payload := [1] } 11),
@@ -451,14 +488,21 @@ theorem C12_refines_spec_E5_counterexample :
   intro h
   exact absurd (runMatchB_of h) (by decide)
 
-/-- The ping hypothesis is needed: the reference client completes both pings in order, the model
-loses the first. -/
-theorem C12_refines_spec_ping_counterexample :
-    Ok {} [.connect (.connack false 0), .api (.ping 1)] = true ∧
-    ¬ RunMatch (specOuts {} [.connect (.connack false 0), .api (.ping 1), .api (.ping 2), .peer .pingresp, .peer .pingresp])
-      (runOuts init [.connect (.connack false 0), .api (.ping 1), .api (.ping 2), .peer .pingresp, .peer .pingresp]) := by
-  refine ⟨by decide, fun h => ?_⟩
-  exact absurd (runMatchB_of h) (by decide)
+/-- Several outstanding pings are admitted (there is no ping hypothesis any more): three pings before
+the first PINGRESP, PINGRESPs interleaved with another acknowledgement, a PINGRESP with nothing
+outstanding - the model completes every ping, in call order, exactly as the reference client does. -/
+def demoP : List Ev :=
+  [.connect (.connack false 0), .api (.ping 1), .api (.ping 2),
+   .api (.publish { qos := 1, topic := [97], pktid := 3, payload := [1] } 5),
+   .api (.ping 4), .peer .pingresp, .peer (.puback 3), .peer .pingresp, .peer .pingresp, .peer .pingresp]
+
+theorem C12_refines_spec_pings :
+    Ok {} demoP = true ∧ RunMatch (specOuts {} demoP) (runOuts init demoP) ∧
+    runOuts init demoP =
+      [[.connected], [.wrote .pingreq], [.wrote .pingreq],
+       [.wrote (.publish { qos := 1, topic := [97], pktid := 3, payload := [1] })],
+       [.wrote .pingreq], [.complete 1 false], [.complete 5 false], [.complete 2 false], [.complete 4 false], []] :=
+  ⟨by decide, (C12_refines_spec_partial demoP (by decide)).1, by decide⟩
 
 /-- E9 is needed: a request with the overlapping filters `a/+`, `a/b`; one delivered `a/b` invokes
 the callback once in the reference client, twice in the model.  Everything before the delivery is
